@@ -249,6 +249,28 @@ int main(int argc, char **argv) {
       int rc; do_close(); rc = do_open();
       printf("RET %d vnext=%llu lastseq=%llx\n", rc, g_db ? (unsigned long long)g_db->versions->next_file_number : 0ULL,
              g_db ? (unsigned long long)g_db->versions->last_sequence : 0ULL);
+    } else if (!strcmp(a[0], "repair") && n >= 2) {
+      /* lose / damage the metadata, repair, open */
+      int variant = atoi(a[1]), rc; char path[1200]; DIR *d; struct dirent *e;
+      do_close();
+      d = opendir(g_dir);
+      if (d) {
+        while ((e = readdir(d)) != NULL) {
+          int is_manifest = strncmp(e->d_name, "MANIFEST-", 9) == 0, is_current = strcmp(e->d_name, "CURRENT") == 0;
+          snprintf(path, sizeof(path), "%s/%s", g_dir, e->d_name);
+          if (variant == 0 && (is_manifest || is_current)) unlink(path);
+          else if (variant == 1 && is_manifest) { struct stat st; if (stat(path, &st) == 0) truncate(path, st.st_size / 2); }
+          else if (variant == 2 && is_current) { FILE *f = fopen(path, "w"); if (f) { fputs("MANIFEST-999999\n", f); fclose(f); } }
+          else if (variant == 3 && is_manifest) { FILE *f = fopen(path, "r+"); if (f) { fseek(f, 9, SEEK_SET); fputc(0x5a, f); fclose(f); } }
+        }
+        closedir(d);
+      }
+      rc = ldb_repair(g_dir, &g_opt);
+      printf("REPAIR rc=%d\n", rc);
+      print_dir();
+      rc = do_open();
+      printf("RET %d vnext=%llu lastseq=%llx\n", rc, g_db ? (unsigned long long)g_db->versions->next_file_number : 0ULL,
+             g_db ? (unsigned long long)g_db->versions->last_sequence : 0ULL);
     } else if (!strcmp(a[0], "layout")) {
       print_layout(); printf("RET 0\n");
     } else if (g_db == NULL) {
